@@ -2513,6 +2513,179 @@ Example C01_eq_file_same_path_nonvacuous :
 Proof. exact class_file_same_path_nonvacuous. Qed.
 
 (* ====================================================================================== *)
+(* Fourth file-BASE arm: ONE leading separator against a file base (task c01file5)          *)
+(* ====================================================================================== *)
+From RU Require Import Proofs.C01_EqFileOne.
+
+(* what `related` says about the front of a FILE base: offsets 4 / 7 / 7, no port, the text in front of the path is
+   "file://" + the Standard's host text, and Url::host_str() - from which parser.rs rebuilds the front - is that text *)
+Theorem C01_file_base_front : forall dbg shs b sb sh,
+  related dbg shs b sb -> su_scheme sb = str_file -> su_host sb = Some sh ->
+  scheme_end b = 4 /\ username_end b = 7 /\ host_start b = 7 /\ host_end b = 7 + nlen (shs sh)
+  /\ path_start b = 7 + nlen (shs sh) /\ port b = None
+  /\ nfirstn (path_start b) (ser b) = s_file_css ++ shs sh
+  /\ match host_str b with
+     | Some (Some hs) => (s_file_css ++ hs, nlen (s_file_css ++ hs), hosti b)
+     | _ => (s_file_css, 7, HI_None)
+     end = (s_file_css ++ shs sh, 7 + nlen (shs sh), hosti b).
+Proof. exact file_base_front. Qed.
+Print Assumptions C01_file_base_front.
+
+(* the Standard's side alone, for EVERY file base without opaque path: cleaned reference c1 R1 with c1 a separator and
+   R1 not starting with one: no scheme state -> file state -> file slash state ("otherwise": host of the base; the
+   first segment of the base path is carried over when it is a normalized drive letter and R1 does not start with a
+   Windows drive letter = one_init) -> path state on R1.  The same behind "file:" (scheme state -> file state). *)
+Theorem C01_file_rel_one_spec : forall shp sb input c1 R1,
+  spec_clean input = c1 :: R1 -> is_sl c1 = true -> no_sl_head R1 = true ->
+  has_opaque_path sb = false -> list_eqb (su_scheme sb) str_file = true ->
+  spec_basic_url_parse shp input (Some sb)
+  = BDone (file_tail (fkeep sb (one_init sb R1)) (spath_f R1 (one_init sb R1) [])).
+Proof. exact spec_file_rel_one. Qed.
+Print Assumptions C01_file_rel_one_spec.
+
+Theorem C01_file_same_one_spec : forall shp sb input c1 R1,
+  spec_scheme (spec_clean input) = Some (str_file, c1 :: R1) -> is_sl c1 = true -> no_sl_head R1 = true ->
+  has_opaque_path sb = false -> list_eqb (su_scheme sb) str_file = true ->
+  spec_basic_url_parse shp input (Some sb)
+  = BDone (file_tail (fkeep sb (one_init sb R1)) (spath_f R1 (one_init sb R1) [])).
+Proof. exact spec_file_same_one. Qed.
+Print Assumptions C01_file_same_one_spec.
+
+(* the class in_class_file_rel_one: `related` base with spec_base_ok whose Standard record is a file URL without opaque
+   path; cleaned reference = ONE '/' or '\' + R1, R1 not starting with a separator; the path loop on R1 (has_host =
+   false, started on the empty list) inside fpath_ok and stable under the leading-slash collapse (fp_ok false R1 R1);
+   and (a) R1 does not start with a Windows drive letter, the base has a host and the first segment of its path is not
+   a normalized drive letter - both sides keep the host of the base - or (b) R1 starts with a Windows drive letter and
+   the host of the base is the EMPTY host - parser.rs drops the host of the base (F-C01-1), the Standard keeps it.
+   agree_good + the result pair is a full_base pair.  Only hypothesis on the host functions: the Standard's serializer
+   gives the empty string for the empty host (no host is parsed).  Beside C01_statement_all3: these references are in
+   class 1 of Known_C01.  NOT covered: R1 without drive letter against a base whose first segment is a normalized
+   drive letter (the segment is carried over; needs the path loop started on a non-empty list). *)
+Theorem C01_eq_file_rel_one : forall dbg hp hpo hd shp shs, shs SEmpty = [] -> forall input b sb,
+  usv_list input -> related dbg shs b sb -> spec_base_ok sb = true -> in_class_file_rel_one sb input = true ->
+  agree_good dbg shs (parse_url dbg hp hpo hd None (Some b) input) (spec_basic_url_parse shp input (Some sb))
+  /\ (forall su u, spec_basic_url_parse shp input (Some sb) = BDone su -> parse_url dbg hp hpo hd None (Some b) input = POk u ->
+        full_base dbg shs u su).
+Proof. exact class_file_rel_one. Qed.
+Check C01_eq_file_rel_one : forall dbg hp hpo hd shp shs, shs SEmpty = [] -> forall input b sb,
+  usv_list input -> related dbg shs b sb -> spec_base_ok sb = true ->
+  negb (has_opaque_path sb) && list_eqb (su_scheme sb) str_file
+  && match spec_clean input with
+     | c1 :: R1 =>
+         is_sl c1 && match R1 with c2 :: _ => negb (is_sl c2) | [] => true end && fp_ok false R1 R1
+         && (if starts_with_windows_drive_letter R1 then match su_host sb with Some SEmpty => true | _ => false end
+             else opt_is_some (su_host sb)
+                  && match path_segments sb with p0 :: _ => negb (is_normalized_windows_drive_letter p0) | [] => false end)
+     | [] => false
+     end = true ->
+  agree_good dbg shs (parse_url dbg hp hpo hd None (Some b) input) (spec_basic_url_parse shp input (Some sb))
+  /\ (forall su u, spec_basic_url_parse shp input (Some sb) = BDone su -> parse_url dbg hp hpo hd None (Some b) input = POk u ->
+        full_base dbg shs u su).
+Print Assumptions C01_eq_file_rel_one.
+
+(* the same arm entered from the scheme state: "file:" (any case) + the reference *)
+Theorem C01_eq_file_same_one : forall dbg hp hpo hd shp shs, shs SEmpty = [] -> forall input b sb,
+  usv_list input -> related dbg shs b sb -> spec_base_ok sb = true -> in_class_file_same_one sb input = true ->
+  agree_good dbg shs (parse_url dbg hp hpo hd None (Some b) input) (spec_basic_url_parse shp input (Some sb))
+  /\ (forall su u, spec_basic_url_parse shp input (Some sb) = BDone su -> parse_url dbg hp hpo hd None (Some b) input = POk u ->
+        full_base dbg shs u su).
+Proof. exact class_file_same_one. Qed.
+Check C01_eq_file_same_one : forall dbg hp hpo hd shp shs, shs SEmpty = [] -> forall input b sb,
+  usv_list input -> related dbg shs b sb -> spec_base_ok sb = true ->
+  match spec_scheme (spec_clean input) with
+  | Some (sch, R) => list_eqb sch str_file && file_one_ok sb R
+  | None => false
+  end = true ->
+  agree_good dbg shs (parse_url dbg hp hpo hd None (Some b) input) (spec_basic_url_parse shp input (Some sb))
+  /\ (forall su u, spec_basic_url_parse shp input (Some sb) = BDone su -> parse_url dbg hp hpo hd None (Some b) input = POk u ->
+        full_base dbg shs u su).
+Print Assumptions C01_eq_file_same_one.
+
+(* with the host model plugged in; bases in full_base; no oracle hypothesis at all *)
+Theorem C01_statement_file_rel_one_model : forall dbg idna input b sb,
+  usv_list input -> full_base dbg spec_host_serializer b sb -> in_class_file_rel_one sb input = true ->
+  agree_good dbg spec_host_serializer
+    (parse_url dbg (host_parse idna) host_parse_opaque host_display None (Some b) input)
+    (spec_basic_url_parse (spec_host_parser idna) input (Some sb))
+  /\ (forall su u, spec_basic_url_parse (spec_host_parser idna) input (Some sb) = BDone su ->
+        parse_url dbg (host_parse idna) host_parse_opaque host_display None (Some b) input = POk u ->
+        full_base dbg spec_host_serializer u su).
+Proof. exact class_file_rel_one_model. Qed.
+Print Assumptions C01_statement_file_rel_one_model.
+
+Theorem C01_statement_file_same_one_model : forall dbg idna input b sb,
+  usv_list input -> full_base dbg spec_host_serializer b sb -> in_class_file_same_one sb input = true ->
+  agree_good dbg spec_host_serializer
+    (parse_url dbg (host_parse idna) host_parse_opaque host_display None (Some b) input)
+    (spec_basic_url_parse (spec_host_parser idna) input (Some sb))
+  /\ (forall su u, spec_basic_url_parse (spec_host_parser idna) input (Some sb) = BDone su ->
+        parse_url dbg (host_parse idna) host_parse_opaque host_display None (Some b) input = POk u ->
+        full_base dbg spec_host_serializer u su).
+Proof. exact class_file_same_one_model. Qed.
+Print Assumptions C01_statement_file_same_one_model.
+
+(* non-vacuity, arm (a): against the parse result of file://h/tmp/x the references /y, \a/../b?q#f, /./C:/z, file:/y are
+   in the classes (and in class 1 of Known_C01); both sides give file://h/y, file://h/b?q#f, file://h/C:/z, file://h/y *)
+Example C01_eq_file_one_nonvacuous :
+  let idna := id_idna in
+  let P base i := parse_url true (host_parse idna) host_parse_opaque host_display None base i in
+  let S sbase i := spec_basic_url_parse (spec_host_parser idna) i sbase in
+  match P None file_base_text, S None file_base_text with
+  | POk b, BDone sb =>
+      let ok (cls : spec_url -> list N -> bool) i h :=
+        cls sb i = true /\ known_c01 (Some b) i = 1
+        /\ match P (Some b) i, S (Some sb) i with
+           | POk u, BDone su => q_href u = h /\ api_of_model true u = Some (spec_api_list spec_host_serializer su)
+           | _, _ => False end in
+      ok in_class_file_rel_one [47;121] [102;105;108;101;58;47;47;104;47;121]
+      /\ ok in_class_file_rel_one [92;97;47;46;46;47;98;63;113;35;102] [102;105;108;101;58;47;47;104;47;98;63;113;35;102]
+      /\ ok in_class_file_rel_one [47;46;47;67;58;47;122] [102;105;108;101;58;47;47;104;47;67;58;47;122]
+      /\ ok in_class_file_same_one [102;105;108;101;58;47;121] [102;105;108;101;58;47;47;104;47;121]
+  | _, _ => False
+  end.
+Proof. exact class_file_one_nonvacuous. Qed.
+
+(* non-vacuity, arm (b): against the parse result of file:///tmp/x (empty host) the references /C:/y, /c|\z?q,
+   fIle:/C:/y are in the classes; both sides give file:///C:/y, file:///c:/z?q, file:///C:/y *)
+Example C01_eq_file_one_drive_nonvacuous :
+  let idna := id_idna in
+  let P base i := parse_url true (host_parse idna) host_parse_opaque host_display None base i in
+  let S sbase i := spec_basic_url_parse (spec_host_parser idna) i sbase in
+  let bt := [102;105;108;101;58;47;47;47;116;109;112;47;120] in
+  match P None bt, S None bt with
+  | POk b, BDone sb =>
+      let ok (cls : spec_url -> list N -> bool) i h :=
+        cls sb i = true /\ known_c01 (Some b) i = 1
+        /\ match P (Some b) i, S (Some sb) i with
+           | POk u, BDone su => q_href u = h /\ api_of_model true u = Some (spec_api_list spec_host_serializer su)
+           | _, _ => False end in
+      ok in_class_file_rel_one [47;67;58;47;121] [102;105;108;101;58;47;47;47;67;58;47;121]
+      /\ ok in_class_file_rel_one [47;99;124;92;122;63;113] [102;105;108;101;58;47;47;47;99;58;47;122;63;113]
+      /\ ok in_class_file_same_one [102;73;108;101;58;47;67;58;47;121] [102;105;108;101;58;47;47;47;67;58;47;121]
+  | _, _ => False
+  end.
+Proof. exact class_file_one_drive_nonvacuous. Qed.
+
+(* the exclusion of arm (b) "the host of the base is the empty host" is necessary (F-C01-1, recorded, in
+   url/tests/expected_failures.txt): against the parse result of file://h/tmp/x the reference /C:/y gives file://h/C:/y
+   in the Standard and file:///C:/y in parser.rs.  Replay: Url::parse("file://h/tmp/x").unwrap().join("/C:/y") *)
+Theorem C01_file_one_exclusion_necessary :
+  let idna := id_idna in
+  let P base i := parse_url true (host_parse idna) host_parse_opaque host_display None base i in
+  let S sbase i := spec_basic_url_parse (spec_host_parser idna) i sbase in
+  let i := [47;67;58;47;121] in
+  match P None file_base_text, S None file_base_text with
+  | POk b, BDone sb =>
+      in_class_file_rel_one sb i = false /\ known_c01 (Some b) i = 1
+      /\ match P (Some b) i, S (Some sb) i with
+         | POk u, BDone su => q_href u = [102;105;108;101;58;47;47;47;67;58;47;121] /\ get_href spec_host_serializer su = [102;105;108;101;58;47;47;104;47;67;58;47;121]
+         | _, _ => False end
+  | _, _ => False
+  end.
+Proof. exact class_file_one_exclusion_necessary. Qed.
+Print Assumptions C01_file_one_exclusion_necessary.
+
+(* ====================================================================================== *)
 (* appended block (task c09last): the *_model theorems for the REAL idna oracle            *)
 (* ====================================================================================== *)
 (* The *_model theorems above are stated relative to IdnaOK idna, which is FALSE of the real idna crate (finding F-C10-1:
